@@ -91,6 +91,32 @@ Proof.
   rewrite filter_cons_True by apply HP. f_equal. exact IH.
 Qed.
 
+Lemma omap_filter_length {A B} (f : A -> option B) (P : A -> Prop) `{!forall x, Decision (P x)} l :
+  (forall x, is_Some (f x) <-> P x) -> length (omap f l) = length (filter P l).
+Proof.
+  intros Hf. induction l as [|x l IH]; [reflexivity|]. csimpl. rewrite filter_cons.
+  destruct (f x) as [y|] eqn:E, (decide (P x)) as [p|np]; cbn [length].
+  - f_equal. exact IH.
+  - exfalso. apply np, Hf. rewrite E. eauto.
+  - exfalso. apply Hf in p. rewrite E in p. destruct p; discriminate.
+  - exact IH.
+Qed.
+
+Lemma NoDup_omap {A B} (f : A -> option B) l :
+  NoDup l ->
+  (forall x y z, x ∈ l -> y ∈ l -> f x = Some z -> f y = Some z -> x = y) ->
+  NoDup (omap f l).
+Proof.
+  induction 1 as [|x l Hx Hnd IH]; intros Hinj; csimpl; [constructor|].
+  assert (IH' : NoDup (omap f l)).
+  { apply IH. intros a b z Ha Hb. apply Hinj; apply elem_of_list_further; assumption. }
+  destruct (f x) as [z|] eqn:E; [|exact IH']. constructor; [|exact IH'].
+  intros Hin. apply elem_of_list_omap in Hin as (y & Hy & Hfy).
+  assert (x = y).
+  { apply (Hinj x y z); [apply elem_of_list_here|apply elem_of_list_further, Hy|exact E|exact Hfy]. }
+  subst y. contradiction.
+Qed.
+
 (** ** [strings.Split] / [strings.Join] *)
 Lemma split_on_nonnil sep s : split_on sep s <> [].
 Proof.
@@ -195,6 +221,8 @@ Variable valid_name : bytes -> bool.
 Variable valid_data : Z -> bytes -> bool.
 Variable str_ok : bytes -> bool.
 Hypothesis hash_inj : forall a b, hash a = hash b -> a = b.
+
+Collection noinj := hash valid_name valid_data str_ok.
 
 Notation nexec := (nexec hash valid_name valid_data str_ok).
 Notation nstep := (nstep hash valid_name valid_data str_ok).
@@ -672,14 +700,6 @@ Proof.
 Qed.
 
 (** ** the record methods and setPrice keep the accounting part *)
-Lemma check_record_state c s name typ data t :
-  check_record hash valid_name valid_data c s name typ data = Halt t -> True.
-Proof. trivial. Qed.
-
-Lemma update_soa_record_keeps c s t k v s' :
-  update_soa_serial hash str_ok c (set_records s (<[k := v]> (records s))) t = Halt s' -> keeps s s'.
-Proof. intros H. apply update_soa_serial_keeps in H. exact H. Qed.
-
 Lemma add_record_keeps c s name typ data s' r ns :
   nexec c s (AddRecord name typ data) = Halt (s', r, ns) -> keeps s s' /\ ns = [].
 Proof.
@@ -970,6 +990,498 @@ Proof.
   - destruct Hm as (Hk' & Hn0 & _ & _ & _ & Hn & _ & -> & _). destruct (decide (k = hash n)) as [->|Hne].
     + rewrite lookup_insert. exists nsb. split; [reflexivity|congruence].
     + rewrite lookup_insert_ne by congruence. eauto.
+Qed.
+
+
+(** * 5. The C10 lemmas *)
+
+(** ** accounting *)
+Lemma accounting_state s :
+  acct_inv s ->
+  supply s = Z.of_nat (nontld_count (names s)) /\
+  supply s = zsum (balances s) /\
+  supply s = Z.of_nat (size (acctok s)) /\
+  (forall o, default 0 (balances s !! o) = Z.of_nat (cnt o (acctok s))) /\
+  (forall o, balances s !! o <> Some 0).
+Proof.
+  intros Inv. split; [rewrite (inv_sup _ Inv), (inv_cnt _ Inv); reflexivity|].
+  split; [symmetry; apply (inv_sum _ Inv)|]. split; [apply (inv_sup _ Inv)|].
+  split; [apply (inv_bal _ Inv)|apply (inv_nz _ Inv)].
+Qed.
+
+(** the unsorted listing of [tokensOf] *)
+Definition tok_list (s : nstate) (o : bytes) : list bytes :=
+  omap (fun kv : (bytes * bytes) * bytes =>
+          if bytes_eqb (fst (fst kv)) o then Some (snd kv) else None)
+       (map_to_list (acctok s)).
+
+Lemma tok_list_spec s o :
+  acct_inv s ->
+  NoDup (tok_list s o) /\ length (tok_list s o) = cnt o (acctok s) /\
+  forall n, n ∈ tok_list s o <->
+            exists ns, get_ns s n = Some ns /\ ns_owner ns = Some o /\ is_tld n = false.
+Proof.
+  intros Inv. unfold tok_list. split; [|split].
+  - apply NoDup_omap; [apply NoDup_map_to_list|].
+    intros [[o1 k1] n1] [[o2 k2] n2] z H1 H2 F1 F2. cbn [fst snd] in F1, F2.
+    destruct (bytes_eqb o1 o) eqn:E1; [|discriminate]. destruct (bytes_eqb o2 o) eqn:E2; [|discriminate].
+    apply bytes_eqb_eq in E1, E2. injection F1 as ->. injection F2 as ->. subst o1 o2.
+    apply elem_of_map_to_list in H1, H2.
+    apply (inv_tok _ Inv) in H1 as (nsa & Ha & _ & Hna & _).
+    apply (inv_tok _ Inv) in H2 as (nsb & Hb & _ & Hnb & _).
+    apply (inv_key _ Inv) in Ha, Hb. congruence.
+  - unfold cnt, mcount. apply omap_filter_length. intros [[o1 k1] n1]. cbn [fst snd].
+    destruct (bytes_eqb o1 o) eqn:E1.
+    + apply bytes_eqb_eq in E1. split; [intros _; exact E1|eauto].
+    + apply bytes_eqb_neq in E1. split; [intros [? ?]; discriminate|intros; contradiction].
+  - intros n. rewrite elem_of_list_omap. split.
+    + intros ([[o1 k1] n1] & Hin & Hf). cbn [fst snd] in Hf.
+      destruct (bytes_eqb o1 o) eqn:E1; [|discriminate]. apply bytes_eqb_eq in E1.
+      injection Hf as ->. subst o1. apply elem_of_map_to_list in Hin.
+      apply (inv_tok _ Inv) in Hin as (ns & Hk & Ho & Hn & Ht).
+      exists ns. pose proof (inv_key _ Inv _ _ Hk) as Hkey. rewrite Hn in Hkey. subst k1.
+      auto.
+    + intros (ns & Hg & Ho & Ht). destruct (stored_nontld _ _ _ Inv Hg) as (Hn & _).
+      exists ((o, hash n), n). split.
+      * apply elem_of_map_to_list. apply (inv_tok _ Inv). exists ns. auto.
+      * cbn [fst snd]. rewrite bytes_eqb_refl. reflexivity.
+Qed.
+
+Lemma accounting_readers c s o :
+  acct_inv s -> length o = 20%nat ->
+  nexec c s TotalSupply = Halt (s, VInt (supply s), []) /\
+  nexec c s (BalanceOf (Some o)) = Halt (s, VInt (default 0 (balances s !! o)), []) /\
+  exists l, nexec c s (TokensOf (Some o)) = Halt (s, VList (map VBytes l), []) /\
+    Sorted bytes_le l /\ NoDup l /\ Z.of_nat (length l) = default 0 (balances s !! o) /\
+    forall n, n ∈ l <-> exists ns, get_ns s n = Some ns /\ ns_owner ns = Some o /\ is_tld n = false.
+Proof.
+  intros Inv Hlen. split; [reflexivity|].
+  assert (Hv : is_valid (Some o) = true) by (cbn [is_valid]; unfold hash_len; apply Nat.eqb_eq, Hlen).
+  split.
+  { unfold NNS.nexec. rewrite Hv. reflexivity. }
+  destruct (tok_list_spec s o Inv) as (Hnd & Hl & Hmem).
+  exists (merge_sort bytes_le (tok_list s o)). split.
+  { unfold NNS.nexec. rewrite Hv. reflexivity. }
+  split; [apply Sorted_merge_sort; apply _|].
+  split; [rewrite merge_sort_Permutation; exact Hnd|].
+  split; [rewrite merge_sort_Permutation, Hl; symmetry; apply (inv_bal _ Inv)|].
+  intros n. rewrite merge_sort_Permutation. apply Hmem.
+Qed.
+
+(** ** availability *)
+Lemma live_iff c s n :
+  live c s n = true <-> exists ns, get_ns s n = Some ns /\ now c < ns_exp ns.
+Proof using noinj. clear hash_inj.
+  unfold NNS.live. destruct (get_ns s n) as [ns|].
+  - rewrite Z.ltb_lt. split; [eauto|]. intros (ns' & E & Hl). injection E as <-. exact Hl.
+  - split; [discriminate|]. intros (ns' & E & _). discriminate.
+Qed.
+
+Lemma live_false_iff c s n :
+  live c s n = false <-> forall ns, get_ns s n = Some ns -> ns_exp ns <= now c.
+Proof using noinj. clear hash_inj.
+  unfold NNS.live. destruct (get_ns s n) as [ns|].
+  - rewrite Z.ltb_ge. split; [intros Hl ns' E; injection E as <-; exact Hl|eauto].
+  - split; [intros _ ns' E; discriminate|reflexivity].
+Qed.
+
+Lemma existsb_false {A} (f : A -> bool) l : existsb f l = false -> forall x, In x l -> f x = false.
+Proof using Type. clear hash_inj.
+  intros He x Hin. destruct (f x) eqn:E; [|reflexivity].
+  assert (existsb f l = true) by (apply existsb_exists; eauto). congruence.
+Qed.
+
+(** [parentExpired] from index 0 = the name itself or one of its parents *)
+Lemma pe0 c s n :
+  parent_expired c s 0 (split_dot n) = negb (live c s n) || parent_expired c s 1 (split_dot n).
+Proof using noinj. clear hash_inj.
+  unfold NNS.parent_expired. pose proof (split_dot_length_pos n) as Hl.
+  replace (length (split_dot n) - 0)%nat with (S (length (split_dot n) - 1)) by lia.
+  cbn [seq existsb]. rewrite drop_0, join_split_dot. reflexivity.
+Qed.
+
+Lemma pe_chain c s frags first :
+  parent_expired c s first frags = false ->
+  forall i, (first <= i < length frags)%nat -> live c s (join_dot (drop i frags)) = true.
+Proof using noinj. clear hash_inj.
+  unfold NNS.parent_expired. intros He i Hi.
+  pose proof (existsb_false _ _ He i) as Hx. apply negb_false_iff. apply Hx.
+  apply in_seq. lia.
+Qed.
+
+Lemma is_available_spec c s n :
+  valid_name n = true -> is_tld n = false ->
+  is_Some (roots s !! List.last (split_dot n) []) ->
+  parent_expired c s 1 (split_dot n) = false ->
+  nexec c s (IsAvailable n) =
+    Halt (s, VBool (if live c s n then false
+                    else negb (parent_conflict s n (join_dot (drop 1 (split_dot n))))), []).
+Proof using noinj. clear hash_inj.
+  intros Hv Ht [u Hr] Hp. unfold NNS.nexec. cbv zeta. rewrite Hv. cbn [oassert obind].
+  rewrite Hr. rewrite pe0, Hp, orb_false_r, negb_involutive.
+  destruct (live c s n); [reflexivity|].
+  unfold is_tld in Ht. rewrite Ht. reflexivity.
+Qed.
+
+(** the guards of [register] that precede the availability test *)
+Definition reg_guards (c : nctx) (s : nstate) (name o : bytes) : Prop :=
+  valid_name name = true /\ is_tld name = false /\
+  is_Some (roots s !! List.last (split_dot name) []) /\
+  parent_expired c s 1 (split_dot name) = false /\
+  (forall pns, (2 < length (split_dot name))%nat ->
+     get_ns s (join_dot (drop 1 (split_dot name))) = Some pns -> check_admin c pns = Halt tt) /\
+  parent_conflict s name (join_dot (drop 1 (split_dot name))) = false /\
+  length o = 20%nat /\ wit_of c o = true /\ 0 < price s.
+
+(** what [register] does once the guards are passed *)
+Definition reg_tail (c : nctx) (s : nstate) (name : bytes) (owner : option bytes) (email : bytes)
+    (refresh retry expire ttl : Z) : outcome (nstate * val * list nnotif) :=
+  match get_ns s name with
+  | Some ns =>
+      if now c <? ns_exp ns then Halt (s, VBool false, [])
+      else
+        let s1 := update_balance hash s name (ns_owner ns) (-1) in
+        s2 <-! save_domain hash valid_name c s1 name email refresh retry expire ttl owner;
+        let s3 := update_balance hash s2 name owner 1 in
+        ns' <-! post_transfer c (ns_owner ns) owner name;
+        Halt (s3, VBool true, ns')
+  | None =>
+      sup <-! vm_add (supply s) 1;
+      let s1 := set_supply s sup in
+      s2 <-! save_domain hash valid_name c s1 name email refresh retry expire ttl owner;
+      let s3 := update_balance hash s2 name owner 1 in
+      ns' <-! post_transfer c None owner name;
+      Halt (s3, VBool true, ns')
+  end.
+
+Lemma reg_guards_pass c s name o em rf rt ex ttl :
+  reg_guards c s name o ->
+  nexec c s (Register name (Some o) em rf rt ex ttl) = reg_tail c s name (Some o) em rf rt ex ttl.
+Proof using noinj. clear hash_inj.
+  intros (Hv & Ht & Hr & Hp & Hadm & Hc & Hlen & Hw & Hpr).
+  unfold NNS.nexec. cbv zeta. rewrite Hv. cbn [oassert obind].
+  unfold is_tld in Ht. rewrite Ht. cbn [negb oassert obind].
+  rewrite (bool_decide_eq_true_2 _ Hr). cbn [oassert obind].
+  rewrite Hp. cbn [negb oassert obind].
+  assert (Hadm' : (if (2 <? length (split_dot name))%nat
+                   then match get_ns s (join_dot (drop 1 (split_dot name))) with
+                        | Some pns => check_admin c pns
+                        | None => Fault
+                        end
+                   else Halt tt) = Halt tt).
+  { destruct (2 <? length (split_dot name))%nat eqn:E2; [|reflexivity].
+    apply Nat.ltb_lt in E2.
+    pose proof (pe_chain _ _ _ _ Hp 1%nat ltac:(lia)) as Hpl.
+    apply live_iff in Hpl as (pns & Hg & _). rewrite Hg. apply Hadm; [exact E2|exact Hg]. }
+  rewrite Hadm'. cbn [obind]. rewrite Hc. cbn [negb oassert obind].
+  assert (Hhl : hash_len o = true) by (unfold hash_len; apply Nat.eqb_eq, Hlen).
+  cbn [is_valid]. rewrite Hhl. cbn [oassert obind].
+  change (akey (Some o)) with o. unfold check_owner_witness, witness. rewrite Hhl. cbn [obind].
+  fold (wit_of c o). rewrite Hw. cbn [oassert obind].
+  unfold burn_gas. rewrite (proj2 (Z.ltb_lt _ _) Hpr). cbn [oassert obind].
+  reflexivity.
+Qed.
+
+Lemma register_live c s name o em rf rt ex ttl :
+  reg_guards c s name o -> live c s name = true ->
+  nexec c s (Register name (Some o) em rf rt ex ttl) = Halt (s, VBool false, []).
+Proof using noinj. clear hash_inj.
+  intros G Hl. rewrite (reg_guards_pass _ _ _ _ _ _ _ _ _ G). unfold reg_tail.
+  apply live_iff in Hl as (ns0 & Hg & Hlt). rewrite Hg.
+  rewrite (proj2 (Z.ltb_lt _ _) Hlt). reflexivity.
+Qed.
+
+(** ... and it does succeed when the name is not live, short of 256-bit
+    overflow and of a receiving contract that rejects the token *)
+Lemma register_succeeds c s name o em rf rt ex ttl :
+  reg_guards c s name o -> live c s name = false ->
+  int_ok (ex * millisecondsInSecond) = true ->
+  int_ok (now c + ex * millisecondsInSecond) = true ->
+  int_ok (supply s + 1) = true ->
+  existsb (bytes_eqb o) (rejecting c) = false ->
+  exists s', nexec c s (Register name (Some o) em rf rt ex ttl) =
+             Halt (s', VBool true, [NTransfer (owner_of s name) (Some o) name]).
+Proof using noinj. clear hash_inj.
+  intros G Hl I1 I2 I3 Hrej. rewrite (reg_guards_pass _ _ _ _ _ _ _ _ _ G).
+  destruct G as (Hv & _). unfold reg_tail, owner_of.
+  destruct (get_ns s name) as [ns0|] eqn:Hg.
+  - assert (Hlt : (now c <? ns_exp ns0) = false).
+    { unfold NNS.live in Hl. rewrite Hg in Hl. exact Hl. }
+    rewrite Hlt. cbv zeta. unfold save_domain, vm_mul, vm_add. rewrite I1. cbn [obind].
+    rewrite I2. cbn [obind]. unfold put_soa, token_id_from_name. rewrite Hv. cbn [obind].
+    unfold post_transfer. change (akey (Some o)) with o. rewrite Hrej. cbn [obind].
+    eexists. reflexivity.
+  - cbv zeta. unfold vm_add at 1. rewrite I3. cbn [obind].
+    unfold save_domain, vm_mul, vm_add. rewrite I1. cbn [obind].
+    rewrite I2. cbn [obind]. unfold put_soa, token_id_from_name. rewrite Hv. cbn [obind].
+    unfold post_transfer. change (akey (Some o)) with o. rewrite Hrej. cbn [obind].
+    eexists. reflexivity.
+Qed.
+
+(** [register] answers [false] only for a live name *)
+Lemma register_false_live c s name owner em rf rt ex ttl s' ns :
+  acct_inv s ->
+  nexec c s (Register name owner em rf rt ex ttl) = Halt (s', VBool false, ns) ->
+  live c s name = true /\ s' = s /\ ns = [].
+Proof.
+  intros Inv H.
+  apply (register_inv _ _ _ _ _ _ _ _ _ _ _ _ Inv) in H
+    as (o & _ & _ & _ & _ & _ & _ & _ & _ & _ & _ & _ & Hc).
+  destruct Hc as [(ns0 & Hg & Hlt & -> & _ & ->)|[(ns0 & o0 & _ & _ & Hr & _)|(_ & Hr & _)]];
+    [|discriminate Hr|discriminate Hr].
+  split; [apply live_iff; eauto|auto].
+Qed.
+
+Lemma register_not_live c s name o em rf rt ex ttl s' r ns :
+  acct_inv s -> live c s name = false ->
+  nexec c s (Register name (Some o) em rf rt ex ttl) = Halt (s', r, ns) ->
+  r = VBool true /\
+  get_ns s' name = Some (mkNS (Some o) name (now c + ex * millisecondsInSecond) None) /\
+  ns = [NTransfer (owner_of s name) (Some o) name].
+Proof.
+  intros Inv Hl H.
+  apply (register_inv _ _ _ _ _ _ _ _ _ _ _ _ Inv) in H
+    as (o' & Eo & _ & _ & _ & _ & _ & _ & _ & _ & _ & _ & Hc). injection Eo as <-.
+  destruct Hc as [(ns0 & Hg & Hlt & _)|[(ns0 & o0 & Hg & _ & -> & -> & Hm)|(Hg & -> & -> & Hm)]].
+  - exfalso. assert (live c s name = true) by (apply live_iff; eauto). congruence.
+  - destruct Hm as (_ & _ & Ho0 & _ & _ & _ & _ & E1 & _).
+    split; [reflexivity|]. unfold owner_of, NNS.get_ns. rewrite E1, lookup_insert.
+    unfold NNS.get_ns in Hg. rewrite Hg, Ho0. auto.
+  - destruct Hm as (_ & _ & _ & _ & _ & E1 & _).
+    split; [reflexivity|]. unfold owner_of, NNS.get_ns. rewrite E1, lookup_insert.
+    unfold NNS.get_ns in Hg. rewrite Hg. auto.
+Qed.
+
+(** ** takeover *)
+Lemma move_balances b b' o0 o :
+  b' = bal_adj (bal_adj b o0 (-1)) o 1 ->
+  forall x, default 0 (b' !! x) =
+            default 0 (b !! x) - (if decide (x = o0) then 1 else 0) + (if decide (x = o) then 1 else 0).
+Proof. intros -> x. rewrite !bal_adj_lookup. destruct (decide (x = o0)), (decide (x = o)); lia. Qed.
+
+Lemma names_insert_get s s' n v :
+  names s' = <[hash n := v]> (names s) ->
+  get_ns s' n = Some v /\ forall m, m <> n -> get_ns s' m = get_ns s m.
+Proof.
+  intros E. unfold NNS.get_ns. rewrite E. split; [apply lookup_insert|].
+  intros m Hne. apply lookup_insert_ne, not_eq_sym, hash_ne, Hne.
+Qed.
+
+Lemma takeover c s name owner em rf rt ex ttl s' ns ns0 :
+  acct_inv s -> get_ns s name = Some ns0 ->
+  nexec c s (Register name owner em rf rt ex ttl) = Halt (s', VBool true, ns) ->
+  exists o o0, owner = Some o /\ ns_owner ns0 = Some o0 /\ ns_exp ns0 <= now c /\
+    get_ns s' name = Some (mkNS (Some o) name (now c + ex * millisecondsInSecond) None) /\
+    (forall n, n <> name -> get_ns s' n = get_ns s n) /\
+    (forall x, default 0 (balances s' !! x) =
+               default 0 (balances s !! x) - (if decide (x = o0) then 1 else 0)
+                                           + (if decide (x = o) then 1 else 0)) /\
+    supply s' = supply s /\
+    acctok s' = <[(o, hash name) := name]> (delete (o0, hash name) (acctok s)) /\
+    roots s' = roots s /\ price s' = price s /\
+    ns = [NTransfer (Some o0) (Some o) name].
+Proof.
+  intros Inv Hg H.
+  apply (register_inv _ _ _ _ _ _ _ _ _ _ _ _ Inv) in H
+    as (o & -> & _ & _ & _ & _ & _ & _ & _ & _ & Hro & Hpr & Hc).
+  destruct Hc as [(ns1 & _ & _ & _ & Hr & _)|[(ns1 & o0 & Hg' & Hexp & _ & -> & Hm)|(Hg' & _)]];
+    [discriminate Hr| |congruence].
+  rewrite Hg in Hg'. injection Hg' as <-.
+  destruct Hm as (_ & _ & Ho0 & _ & _ & _ & _ & E1 & E2 & E3 & E4).
+  exists o, o0. destruct (names_insert_get _ _ _ _ E1) as [G1 G2].
+  repeat split; try assumption. apply move_balances, E3.
+Qed.
+
+(** ** transfer *)
+Lemma transfer_spec c s to tok s' r ns :
+  acct_inv s -> nexec c s (Transfer to tok) = Halt (s', r, ns) ->
+  exists t ns0 o0, to = Some t /\ is_tld tok = false /\
+    get_ns s tok = Some ns0 /\ ns_owner ns0 = Some o0 /\ now c < ns_exp ns0 /\
+    ((r = VBool false /\ wit_of c o0 = false /\ s' = s /\ ns = []) \/
+     (r = VBool true /\ wit_of c o0 = true /\ ns = [NTransfer (Some o0) (Some t) tok] /\
+      (o0 = t -> s' = s) /\
+      (o0 <> t ->
+         get_ns s' tok = Some (mkNS (Some t) (ns_name ns0) (ns_exp ns0) None) /\
+         (forall n, n <> tok -> get_ns s' n = get_ns s n) /\
+         records s' = records s /\ roots s' = roots s /\ supply s' = supply s /\ price s' = price s /\
+         (forall x, default 0 (balances s' !! x) =
+                    default 0 (balances s !! x) - (if decide (x = o0) then 1 else 0)
+                                                + (if decide (x = t) then 1 else 0)) /\
+         acctok s' = <[(t, hash tok) := tok]> (delete (o0, hash tok) (acctok s))))).
+Proof.
+  intros Inv H.
+  apply (transfer_inv _ _ _ _ _ _ _ Inv) in H
+    as (t & ns0 & o0 & -> & Hlen & Ht & Hg & Hl & Hn0 & Ho0 & Hc).
+  exists t, ns0, o0. do 5 (split; [first [reflexivity|assumption]|]).
+  destruct Hc as [(Hw & -> & -> & ->)|(Hw & -> & -> & Hc)]; [left; auto|right].
+  do 3 (split; [first [reflexivity|assumption]|]).
+  destruct Hc as [(-> & ->)|(Hne & Hro & Hre & Hpr & Hm)].
+  - split; [reflexivity|]. intros Hne. congruence.
+  - split; [intros; congruence|]. intros _.
+    destruct Hm as (_ & _ & _ & _ & _ & _ & _ & E1 & E2 & E3 & E4).
+    destruct (names_insert_get _ _ _ _ E1) as [G1 G2]. rewrite Hn0.
+    repeat split; try assumption. apply move_balances, E3.
+Qed.
+
+(** ** renew *)
+Lemma renew_spec c s name y s' r ns :
+  acct_inv s -> nexec c s (Renew name y) = Halt (s', r, ns) ->
+  exists ns0, 1 <= y <= 10 /\ get_ns s name = Some ns0 /\ now c < ns_exp ns0 /\
+    let e' := ns_exp ns0 + y * millisecondsInYear in
+    r = VInt e' /\ ns = [NRenew name (ns_exp ns0) e'] /\
+    (is_tld name = false -> e' <= now c + millisecondsInTenYears) /\
+    get_ns s' name = Some (mkNS (ns_owner ns0) (ns_name ns0) e' (ns_admin ns0)) /\
+    (forall n, n <> name -> get_ns s' n = get_ns s n) /\
+    roots s' = roots s /\ supply s' = supply s /\ balances s' = balances s /\
+    acctok s' = acctok s /\ records s' = records s /\ price s' = price s.
+Proof.
+  intros Inv H.
+  apply (renew_inv _ _ _ _ _ _ _ Inv) in H
+    as (ns0 & Hy & _ & Hg & Hl & _ & _ & _ & Hten & -> & -> & ->).
+  exists ns0. cbv zeta. do 6 (split; [first [reflexivity|assumption]|]).
+  cbn [roots supply balances acctok records price set_names].
+  destruct (names_insert_get s (set_names s (<[hash name := mkNS (ns_owner ns0) (ns_name ns0)
+              (ns_exp ns0 + y * millisecondsInYear) (ns_admin ns0)]> (names s))) name _ eq_refl) as [G1 G2].
+  repeat split; assumption.
+Qed.
+
+(** ** readers need a live chain *)
+Lemma frag_chain c s n ns :
+  get_frag_ns hash c s n (split_dot n) = Halt ns ->
+  get_ns s n = Some ns /\
+  forall i, (i < length (split_dot n))%nat -> live c s (join_dot (drop i (split_dot n))) = true.
+Proof using noinj. clear hash_inj.
+  intros H. apply gfn_halt in H as (Hg & Hl & Hp).
+  assert (Hp' : parent_expired c s 1 (split_dot n) = false)
+    by (destruct (split_dot n); exact Hp).
+  split; [exact Hg|]. intros i Hi. destruct i as [|i].
+  - rewrite drop_0, join_split_dot. apply live_iff. exists ns. auto.
+  - apply (pe_chain _ _ _ _ Hp'). lia.
+Qed.
+
+Lemma frag_reader c s n ns0 :
+  length (split_dot n) <> 1%nat -> get_frag_ns hash c s n (split_dot n) = Halt ns0 ->
+  (2 <= length (split_dot n))%nat /\
+  (forall i, (i < length (split_dot n))%nat -> live c s (join_dot (drop i (split_dot n))) = true) /\
+  get_ns s n = Some ns0 /\ now c < ns_exp ns0.
+Proof using noinj. clear hash_inj.
+  intros Hne Hf. pose proof (split_dot_length_pos n). split; [lia|].
+  destruct (frag_chain _ _ _ _ Hf) as [Hg Hch]. split; [exact Hch|].
+  apply gfn_halt in Hf as (_ & Hl & _). auto.
+Qed.
+
+Lemma owner_of_spec c s n s' r ns :
+  nexec c s (OwnerOf n) = Halt (s', r, ns) ->
+  (2 <= length (split_dot n))%nat /\
+  (forall i, (i < length (split_dot n))%nat -> live c s (join_dot (drop i (split_dot n))) = true) /\
+  exists ns0, get_ns s n = Some ns0 /\ now c < ns_exp ns0 /\ s' = s /\ ns = [] /\
+    r = oaddr (ns_owner ns0).
+Proof using noinj. clear hash_inj.
+  intros H. unfold NNS.nexec in H. cbv zeta in H.
+  inv1 H. rename E into Ene. apply negb_true_iff, Nat.eqb_neq in Ene.
+  inv1 H. rename E into Ef. injection H as <- <- <-.
+  destruct (frag_reader _ _ _ _ Ene Ef) as (H1 & H2 & H3 & H4). eauto 10.
+Qed.
+
+Lemma properties_spec c s n s' r ns :
+  nexec c s (Properties n) = Halt (s', r, ns) ->
+  (2 <= length (split_dot n))%nat /\
+  (forall i, (i < length (split_dot n))%nat -> live c s (join_dot (drop i (split_dot n))) = true) /\
+  exists ns0, get_ns s n = Some ns0 /\ now c < ns_exp ns0 /\ s' = s /\ ns = [] /\
+    r = VList [VBytes (ns_name ns0); VInt (ns_exp ns0); oaddr (ns_admin ns0)].
+Proof using noinj. clear hash_inj.
+  intros H. unfold NNS.nexec in H. cbv zeta in H.
+  inv1 H. rename E into Ene. apply negb_true_iff, Nat.eqb_neq in Ene.
+  inv1 H. rename E into Ef. injection H as <- <- <-.
+  destruct (frag_reader _ _ _ _ Ene Ef) as (H1 & H2 & H3 & H4). eauto 10.
+Qed.
+
+
+(** ** assembled statements used by Props/C10.v *)
+Lemma availability c s n :
+  valid_name n = true -> is_tld n = false ->
+  is_Some (roots s !! List.last (split_dot n) []) ->
+  parent_expired c s 1 (split_dot n) = false ->
+  (live c s n = true <-> exists ns, get_ns s n = Some ns /\ now c < ns_exp ns) /\
+  (live c s n = true -> nexec c s (IsAvailable n) = Halt (s, VBool false, [])) /\
+  (live c s n = false ->
+     nexec c s (IsAvailable n) =
+       Halt (s, VBool (negb (parent_conflict s n (join_dot (drop 1 (split_dot n))))), [])).
+Proof using noinj. clear hash_inj.
+  intros Hv Ht Hr Hp. split; [apply live_iff|].
+  pose proof (is_available_spec c s n Hv Ht Hr Hp) as H.
+  split; intros Hl; rewrite Hl in H; exact H.
+Qed.
+
+Lemma availability_boundary c s n ns0 :
+  valid_name n = true -> is_tld n = false ->
+  is_Some (roots s !! List.last (split_dot n) []) ->
+  parent_expired c s 1 (split_dot n) = false ->
+  get_ns s n = Some ns0 ->
+  let avail b := nexec c s (IsAvailable n) = Halt (s, VBool b, []) in
+  let noconf := parent_conflict s n (join_dot (drop 1 (split_dot n))) = false in
+  (now c < ns_exp ns0 -> avail false) /\
+  (ns_exp ns0 <= now c -> noconf -> avail true) /\
+  (now c = ns_exp ns0 - 1 -> avail false) /\
+  (now c = ns_exp ns0 -> noconf -> avail true) /\
+  (now c = ns_exp ns0 + 1 -> noconf -> avail true).
+Proof using noinj. clear hash_inj.
+  intros Hv Ht Hr Hp Hg avail noconf.
+  destruct (availability c s n Hv Ht Hr Hp) as (L & A1 & A2).
+  assert (B1 : now c < ns_exp ns0 -> avail false).
+  { intros Hlt. apply A1, L. eauto. }
+  assert (B2 : ns_exp ns0 <= now c -> noconf -> avail true).
+  { intros Hge Hc. unfold avail. rewrite A2; [unfold noconf in Hc; rewrite Hc; reflexivity|].
+    apply live_false_iff. intros ns E. rewrite Hg in E. injection E as <-. exact Hge. }
+  split; [exact B1|]. split; [exact B2|].
+  split; [intros E; apply B1; lia|]. split; intros E; apply B2; lia.
+Qed.
+
+Lemma availability_register c s name o em rf rt ex ttl :
+  acct_inv s -> reg_guards c s name o ->
+  let reg := nexec c s (Register name (Some o) em rf rt ex ttl) in
+  (live c s name = true -> reg = Halt (s, VBool false, [])) /\
+  (forall s' ns, reg = Halt (s', VBool false, ns) -> live c s name = true) /\
+  (live c s name = false -> forall s' r ns, reg = Halt (s', r, ns) ->
+     r = VBool true /\
+     get_ns s' name = Some (mkNS (Some o) name (now c + ex * millisecondsInSecond) None) /\
+     ns = [NTransfer (owner_of s name) (Some o) name]) /\
+  (live c s name = false ->
+     int_ok (ex * millisecondsInSecond) = true -> int_ok (now c + ex * millisecondsInSecond) = true ->
+     int_ok (supply s + 1) = true -> existsb (bytes_eqb o) (rejecting c) = false ->
+     exists s', reg = Halt (s', VBool true, [NTransfer (owner_of s name) (Some o) name])).
+Proof.
+  intros Inv G reg.
+  split; [intros Hl; apply register_live; assumption|].
+  split; [intros s' ns H; apply (register_false_live _ _ _ _ _ _ _ _ _ _ _ Inv H)|].
+  split; [intros Hl s' r ns H; exact (register_not_live _ _ _ _ _ _ _ _ _ _ _ _ Inv Hl H)|].
+  intros Hl I1 I2 I3 I4. apply register_succeeds; assumption.
+Qed.
+
+(** a live non-TLD name can never be renewed for the full ten years *)
+Lemma renew_at_most_nine c s name y s' r ns :
+  acct_inv s -> nexec c s (Renew name y) = Halt (s', r, ns) -> is_tld name = false -> y <= 9.
+Proof.
+  intros Inv H Ht. apply (renew_spec _ _ _ _ _ _ _ Inv) in H as (ns0 & Hy & _ & Hl & H).
+  cbv zeta in H. destruct H as (_ & _ & Hten & _). specialize (Hten Ht).
+  unfold millisecondsInTenYears in Hten.
+  assert (0 < millisecondsInYear) by (vm_compute; reflexivity). nia.
+Qed.
+
+Lemma readers_need_live_chain c s n s' r ns :
+  let chain :=
+    (2 <= length (split_dot n))%nat /\
+    forall i, (i < length (split_dot n))%nat -> live c s (join_dot (drop i (split_dot n))) = true in
+  (nexec c s (OwnerOf n) = Halt (s', r, ns) ->
+     chain /\ exists ns0, get_ns s n = Some ns0 /\ now c < ns_exp ns0 /\ s' = s /\ ns = [] /\
+                          r = oaddr (ns_owner ns0)) /\
+  (nexec c s (Properties n) = Halt (s', r, ns) ->
+     chain /\ exists ns0, get_ns s n = Some ns0 /\ now c < ns_exp ns0 /\ s' = s /\ ns = [] /\
+                          r = VList [VBytes (ns_name ns0); VInt (ns_exp ns0); oaddr (ns_admin ns0)]).
+Proof using noinj. clear hash_inj.
+  intros chain. split; intros H.
+  - destruct (owner_of_spec _ _ _ _ _ _ H) as (H1 & H2 & H3). split; [split|]; assumption.
+  - destruct (properties_spec _ _ _ _ _ _ H) as (H1 & H2 & H3). split; [split|]; assumption.
 Qed.
 
 End Acct.
